@@ -105,6 +105,20 @@ def _parts(p):
     return [x for x in p.split("/") if x]
 
 
+def _put_cooler(dst_file, group, bins, df, symm, **kw):
+    """write one collection into `dst_file::group` WITHOUT relying on cooler's append mode: the collection is
+    created in a file of its own (mode w) and copied over with h5py"""
+    one = dst_file + ".one"
+    cooler.create_cooler(one, gen.bins_df(bins), df, symmetric_upper=symm, ordered=True, mode="w", **kw)
+    parts = _parts(group)
+    with h5py.File(one, "r") as s, h5py.File(dst_file, "a") as dd:
+        parent = dd
+        for q in parts[:-1]:
+            parent = parent.require_group(q)
+        s.copy(s["/"], parent, parts[-1])
+    os.unlink(one)
+
+
 def _template(d, case):
     """build the destination file of the case; returns (file path, model description of its groups, neighbours)"""
     kind = case["dest"]
@@ -119,9 +133,9 @@ def _template(d, case):
     else:
         with h5py.File(path, "w"):
             pass
-    gen.write_cooler(path + "::/a", gen.layout_bins([2, 2]), [[0, 0, 1], [0, 3, 2], [2, 2, 3]], mode="a")
-    gen.write_cooler(path + "::/b/c", b0, [[0, 1, 5], [2, 0, 7]], symm=False, mode="a")
-    gen.write_cooler(path + "::/old", b0, [[1, 1, 9]], mode="a")
+    _put_cooler(path, "/a", gen.layout_bins([2, 2]), _df([[0, 0, 1], [0, 3, 2], [2, 2, 3]]), True)
+    _put_cooler(path, "/b/c", b0, _df([[0, 1, 5], [2, 0, 7]]), False)
+    _put_cooler(path, "/old", b0, _df([[1, 1, 9]]), True)
     with h5py.File(path, "r+") as f:
         f.attrs["note"] = "hello"
         g = f.create_group("g")
@@ -324,21 +338,27 @@ def _same_chrom(case, q, r):
             and (q[1] - off[ch(q[1])]) // 2 == (r[1] - off[ch(r[1])]) // 2)
 
 
-def _write_inputs(case, uri_or_dir, only=None, inputs=None, incompatible=False):
-    """write the input coolers of a merge/coarsen case; returns their URIs"""
+def _write_inputs(case, where, only=None, inputs=None, incompatible=False):
+    """write the input coolers of a merge/coarsen case (one file each, or `only`=k into the group URI `where`);
+    returns their URIs.  The planted records may be invalid: the checks are off."""
     inputs = case["inputs"] if inputs is None else inputs
     bins = gen.layout_bins(case["layout"])
+    kw = dict(boundscheck=False, triucheck=False, dupcheck=False, dtypes={"count": np.int32})
     uris = []
     for k, px in enumerate(inputs):
         if only is not None and k != only:
             continue
-        uri = uri_or_dir if only is not None else os.path.join(uri_or_dir, "in.cool") + f"::/i{k}"
         b = bins
         if incompatible and k == 1:
             b = gen.layout_bins([x + 1 for x in case["layout"]], width=7)
-        cooler.create_cooler(uri, gen.bins_df(b), _df(px), symmetric_upper=case["symm"], ordered=True, mode="a",
-                             boundscheck=False, triucheck=False, dupcheck=False, dtypes={"count": np.int32})
-        uris.append(uri)
+        if only is not None:
+            f, g = where.split("::")
+            _put_cooler(f, g, b, _df(px), case["symm"], **kw)
+            uris.append(where)
+        else:
+            uri = os.path.join(where, f"in{k}.cool")
+            cooler.create_cooler(uri, gen.bins_df(b), _df(px), symmetric_upper=case["symm"], ordered=True, mode="w", **kw)
+            uris.append(uri)
     return uris
 
 
@@ -362,6 +382,7 @@ def _prepare(case):
     x.uri = x.file + "::" + x.dest_group
     x.mode = case.get("mode") or ("w" if case["dest"] == "newfile" else "a")
     x.neigh = {}
+    x.inputs = ()
     x.stat = {}
     x.unrelated = None
     x.was_cooler = False
@@ -468,10 +489,10 @@ def _observe_top(x, case, fault, model, raised, msg):
         if rl != ml:
             return dict(base, note="list_coolers differs from the model's file state", impl=rl, model=ml)
     # temporary files
-    left = [f for f in os.listdir(x.work) if f != "out.cool" and f != "in.cool"]
+    left = [f for f in os.listdir(x.work) if f != "out.cool" and f not in x.inputs]
     if left:
         gc.collect()
-        left = [f for f in os.listdir(x.work) if f != "out.cool" and f != "in.cool"]
+        left = [f for f in os.listdir(x.work) if f != "out.cool" and f not in x.inputs]
         if left:
             return dict(base, note="temporary files left next to the destination", left=left)
     return None
@@ -565,6 +586,7 @@ def _run_producer_fault(x, case, fault, observe):
         x.neigh["/src"] = _snapshot(uris[0])
     else:
         uris = _write_inputs(case, x.work, inputs=inputs, incompatible=fault["kind"] == "incompatible")
+        x.inputs = tuple(os.path.basename(u) for u in uris)
     n_out = case["n"]
     inputs_ok = True
     if prod == "merge":
